@@ -135,7 +135,9 @@ def _work(item):
             out["bad"].append(("exception", False, traceback.format_exc()[-1200:]))
     for flags in ((True, False) if has_flag else (False,)):
         try:
-            kernel, g = dgfam.observe(fam, ris, flags, full=False,
+            # short kernels go through the real constructor (which also runs the loop-carried
+            # search before anyone asks for the critical path), the others build the graph only
+            kernel, g = dgfam.observe(fam, ris, flags, full=(len(ris) <= 2),
                                       line_numbers=gapped_numbers(len(ris), gap))
             probs, n, sig = check_cp(kernel, g)
             if gap == 0 and any(r.tag == "mv0" for r in ris):
@@ -199,6 +201,57 @@ def _work_shipped(item):
         probs, n, sig = check_cp(kernel, g)
         out["n"] = n
         out["sig"] = sig
+        for kind, what in probs:
+            out["bad"].append((kind, False, what))
+    except Exception:
+        out["bad"].append(("exception", False, traceback.format_exc()[-1200:]))
+    return item, out
+
+
+# ------------------------------------------------------------------------------------------
+# real instructions on shipped models: memory forms composed from the register form (a load
+# stage of their own in the graph), read-modify-write of a location that is loaded again
+
+REAL = {
+    "x86": ["addq $1, (%rdx)", "subq %rcx, 8(%rsi)", "movq (%rdx), %rax", "movq 8(%rsi), %rbx",
+            "addq %rax, %rcx", "vaddpd (%rdx), %ymm3, %ymm4", "movq %rcx, (%rdx)",
+            "imulq (%rdx), %rcx"],
+    "aarch64": ["ldr x2, [x1], #16", "ldr x4, [x1]", "add x3, x2, x4", "str x3, [x1]",
+                "ldr d0, [x1, #8]", "fadd d1, d0, d0", "str d1, [x1, #8]"],
+}
+REAL_ARCHS = {"x86": ["zen3", "icx", "hsw"], "aarch64": ["tx2", "a64fx"]}
+
+
+def _work_real(item):
+    arch, isa, idxs = item
+    texts = [REAL[isa][i] for i in idxs]
+    out = {"bad": [], "n": 0, "sig": None}
+    try:
+        mm, sem = _MODELS[arch]
+        parser, kernel = dgfam.parsed_kernel(isa, texts)
+        sem.add_semantics(kernel)
+        g = drive.KernelDG(kernel, parser, mm, sem, timeout=-1)
+        probs, n, sig = check_cp(kernel, g)
+        # "a leading memory-load stage counted once": an instruction whose load stage is a node
+        # of its own hands its result on after its execution latency (plus the forwarding
+        # penalty through memory, or after the index latency for a written-back base register)
+        nodes, edges = graph_of(g)
+        s2l = float(mm.get("store_to_load_forward_latency", 0) or 0)
+        p_idx = float(mm.get("p_index_latency", 1) or 0)
+        for k in kernel:
+            ln = k.line_number
+            if (ln + 0.1, ln) not in edges or k.latency_wo_load is None:
+                continue
+            wo = float(k.latency_wo_load)
+            for (a, b), w in edges.items():
+                if a != ln:
+                    continue
+                n += 1
+                if not any(abs(w - x) < 1e-9 for x in (wo, wo + s2l, p_idx, p_idx + s2l)):
+                    probs.append(("load-stage-twice", "line %d has a load stage of its own (%.1f) "
+                                  "and execution latency %.1f, its edge to line %s weighs %.1f"
+                                  % (ln, edges[(ln + 0.1, ln)], wo, b, w)))
+        out["n"], out["sig"] = n, sig
         for kind, what in probs:
             out["bad"].append((kind, False, what))
     except Exception:
@@ -271,16 +324,39 @@ def run(ctx):
                 {"kind": kind, "part": "shipped", "isa": isa},
                 "[%s on %s] %s" % (os.path.relpath(path, core.REPO), arch, what),
                 {"part": "shipped", "path": path, "isa": isa, "arch": arch, "what": what}))
+    # real instructions
+    rnames = [a for v in REAL_ARCHS.values() for a in v if a not in _MODELS]
+    drive.stage_and_parse(ctx, rnames)
+    for a in rnames:
+        mm = drive.MachineModel(arch=a)
+        _MODELS[a] = (mm, drive.ArchSemantics(mm))
+    ritems = [(a, isa, t) for isa in REAL for a in REAL_ARCHS[isa]
+              for L in (1, 2, 3) for t in itertools.product(range(len(REAL[isa])), repeat=L)]
+    rout = core.pmap(_work_real, ritems)
+    for (arch, isa, idxs), o in rout:
+        res.states += 1
+        res.traces += 1
+        res.transitions += o["n"]
+        res.nontrivial += 1 if o["sig"] and len(o["sig"][3]) > 1 else 0
+        res.outcomes.add(o["sig"])
+        for kind, flags, what in o["bad"]:
+            res.violations.append(core.Violation(
+                {"kind": kind, "part": "real", "isa": isa},
+                "[%r on %s] %s" % ([REAL[isa][i] for i in idxs], arch, what),
+                {"part": "real", "arch": arch, "isa": isa, "idxs": list(idxs), "what": what}))
     if sout:
         (path, isa, arch), o = sout[0]
         res.add_sample({"kernel_file": os.path.relpath(path, core.REPO), "arch": arch,
                         "(cp, L_exec, L_full, marked lines)": o["sig"]})
     res.evaluations = res.states
-    res.extra = {"shipped_kernel_model_pairs": len(sitems)}
+    res.extra = {"shipped_kernel_model_pairs": len(sitems),
+                 "real_instruction_kernels": len(ritems)}
     res.rule = ("all kernels <=3 (thorough <=4) over the C05 alphabet (zero-latency instruction, "
                 "latency ties, chains starting at a separately modelled load, chains ending in the "
                 "most expensive instruction, no dependency at all) on synthetic models, plus every "
-                "shipped example and test kernel on shipped models of its ISA (quick: 2 per ISA); "
+                "shipped example and test kernel on shipped models of its ISA (quick: 2 per ISA), plus all "
+                "kernels <=3 over real instructions with composed memory forms on five shipped "
+                "models (load stage counted once); "
                 "independent longest-path DP on the implementation's exported graph; non-trivial = "
                 "critical path with >= 2 instructions")
     res.bounds = {"kernel_length": 4 if ctx.thorough else 3}
@@ -300,7 +376,10 @@ def replay(ctx, payload):
         drive.stage_and_parse(ctx, [r["arch"], "isa/x86", "isa/aarch64"])
         mm = drive.MachineModel(arch=r["arch"])
         _MODELS[r["arch"]] = (mm, drive.ArchSemantics(mm))
-        _, o = _work_shipped((r["path"], r["isa"], r["arch"]))
+        if r["part"] == "real":
+            _, o = _work_real((r["arch"], r["isa"], tuple(r["idxs"])))
+        else:
+            _, o = _work_shipped((r["path"], r["isa"], r["arch"]))
     for b in o["bad"]:
         print(b)
     print(o["sig"])
